@@ -25,6 +25,7 @@ declare -A ALSO=(
   [C15-post-params-released-twice]="C07"
   [C15-selection-narrows-cached-document]="C03"
   [C02-bindargs-schema-order-index]="C17"
+  [C08-query-exec-shared-payload-buffer]="C13"
 )
 echo "# Seeded changes vs. the checks ($tier tier, $(date -u +%FT%TZ), /repo $(git -C /repo log --format=%h -1))" > $out
 echo >> $out
